@@ -30,6 +30,13 @@ def data_of_len(n, kind, rng):
     return bytes(rng.getrandbits(8) for _ in range(n))
 
 
+class JsonObj(object):
+    """The object the caller asked send_json to encode (wrapped: None is a legitimate JSON value)."""
+
+    def __init__(self, obj):
+        self.obj = obj
+
+
 def build(method, spec, rng):
     """Returns (args, kwargs, expected payload bytes or None, json_obj or None)."""
     cls, n, plane, flag, code = spec['cls'], spec['len'], spec['plane'], spec.get('flag', True), spec.get('code', 0)
@@ -54,6 +61,13 @@ def build(method, spec, rng):
             kwargs['compress'] = False
         return [d], kwargs, d, None
     if method == 'send_json':
+        if cls == 'conflict':
+            # a positional object AND keyword arguments: refused, whatever the positional object is (None, 0 and {} included)
+            pos = {"none_kw": None, "zero_kw": 0, "dict_kw": {"a": 1}, "emptydict_kw": {}}[plane]
+            return [pos], {"k": 1}, None, None
+        if plane in ('none', 'false', 'zero', 'emptystr', 'emptylist'):
+            obj = {"none": None, "false": False, "zero": 0, "emptystr": "", "emptylist": []}[plane]
+            return [obj], kwargs, None, JsonObj(obj)
         if plane == 'dict':
             obj = {"k%d" % i: i for i in range(n)}
         elif plane == 'list':
@@ -62,8 +76,8 @@ def build(method, spec, rng):
             obj = {"t": text_of_utf8_len(n, 'mixed', rng).replace('\x00', 'z')}
         else:
             kw = {"k%d" % i: "v" for i in range(max(1, n))}
-            return [], kw, None, kw
-        return [obj], kwargs, None, obj
+            return [], kw, None, JsonObj(kw)
+        return [obj], kwargs, None, JsonObj(obj)
     if method in ('send_ping', 'send_pong'):
         d = data_of_len(n, plane, rng)
         return [d], kwargs, d, None
